@@ -656,7 +656,20 @@ func bigGraphs() []bigGraph {
 	deep := tree(3, 4)
 	deep.id = "tree(fan=3,depth=4)+back-edge-from-a-leaf"
 	deep.cyc = true
-	deep.edges[deep.n-1] = []int{1}
+	{
+		// the last leaf imports its own ancestor at depth 1 (found by walking up)
+		parent := map[int]int{}
+		for m, kids := range deep.edges {
+			for _, k := range kids {
+				parent[k] = m
+			}
+		}
+		a := deep.n - 1
+		for parent[a] != 0 {
+			a = parent[a]
+		}
+		deep.edges[deep.n-1] = []int{a}
+	}
 	out = append(out, deep)
 	wide := tree(4, 3)
 	wide.id = "tree(fan=4,depth=3)+self-import-in-a-leaf"
